@@ -742,6 +742,11 @@ func genWatchScenario(r *rng, n int, handle string) wScenario {
 				a.Pos = int64(r.next())
 			}
 
+			// the initial bookmark (Noop) of a tail / bookmark start must encode the adjusted start position
+			if a.Mode != "single" && a.Start != "default" && r.chance(2, 5) {
+				a.BootBm = true
+			}
+
 			sc.Acts = append(sc.Acts, a)
 		case x < 95:
 			if nextK == 0 {
@@ -826,7 +831,7 @@ func enumWatchScenarios(length int) []wScenario {
 	return out
 }
 
-func runWatchProperty(t *testing.T, prop string, rule string, gen func(r *rng) []wScenario) {
+func runWatchProperty(t *testing.T, prop string, rule string, gen func(r *rng) []wScenario, extra ...func(rep *Report)) {
 	dir := outDir(t)
 	rep := newReport(prop, rule)
 
@@ -846,13 +851,181 @@ func runWatchProperty(t *testing.T, prop string, rule string, gen func(r *rng) [
 			t.Fatal(err)
 		}
 
+		// a replay of a sampled phase (no scenario inside) re-runs that phase
+		if len(rf.Case.Acts) == 0 {
+			for _, x := range extra {
+				x(rep)
+			}
+
+			rep.write(t, dir)
+
+			return
+		}
+
 		scs = append(scs, rf.Case)
 	} else {
 		scs = gen(newRng(seed(), prop))
 	}
 
 	runWatchScenarios(t, dir, rep, prop, scs)
+
+	if os.Getenv("VERIF_REPLAY") == "" {
+		for _, x := range extra {
+			x(rep)
+		}
+	}
+
 	rep.write(t, dir)
+}
+
+// concurrentEstablishment samples the one thing the scenarios above serialise away: a bootstrapped kind watch being
+// established WHILE writers commit. The model takes the snapshot and the start position from the same state (in the
+// code: under one hold of the collection mutex), so snapshot + events must be a gap-free chain per resource: every
+// Updated event's old version is the version the subscriber holds, and the subscriber ends at the store's versions.
+func concurrentEstablishment(t *testing.T, rep *Report) {
+	ctx, cancel := context.WithCancel(context.Background())
+	defer cancel()
+
+	const (
+		writers = 4
+		burst   = 40
+	)
+
+	r := newRng(seed(), "C02conc")
+	kind := resource.NewMetadata("n1", "T", "", resource.VersionUndefined)
+
+	for attempt := range tier(300, 6000) {
+		st := inmem.NewStateWithOptions(inmem.WithHistoryInitialCapacity(4096), inmem.WithHistoryMaxCapacity(4096), inmem.WithHistoryGap(0))("n1")
+
+		for w := range writers {
+			if err := st.Create(ctx, newRes("n1", "T", fmt.Sprintf("w%d", w), "p0")); err != nil {
+				t.Fatal(err)
+			}
+		}
+
+		var wg sync.WaitGroup
+
+		start := make(chan struct{})
+
+		for w := range writers {
+			wg.Add(1)
+
+			go func() {
+				defer wg.Done()
+
+				<-start
+
+				for range burst {
+					cur, err := st.Get(ctx, resource.NewMetadata("n1", "T", fmt.Sprintf("w%d", w), resource.VersionUndefined))
+					if err != nil {
+						return
+					}
+
+					cur.(*Res).SetPayload(bumpPayload(cur.(*Res).Payload())) //nolint:forcetypeassert
+
+					if st.Update(ctx, cur) != nil {
+						return
+					}
+				}
+			}()
+		}
+
+		agg := attempt%2 == 1
+		spin := r.intn(4000)
+		wctx, wstop := context.WithCancel(ctx)
+		ch := make(chan state.Event, writers*burst+16)
+		aggCh := make(chan []state.Event, writers*burst+16)
+
+		close(start)
+
+		for i := 0; i < spin; i++ { //nolint:revive
+			_ = i
+		}
+
+		var err error
+		if agg {
+			err = st.WatchKindAggregated(wctx, kind, aggCh, state.WithBootstrapContents(true))
+		} else {
+			err = st.WatchKind(wctx, kind, ch, state.WithBootstrapContents(true))
+		}
+
+		if err != nil {
+			t.Fatal(err)
+		}
+
+		wg.Wait()
+
+		final := map[string]string{}
+
+		l, err := st.List(ctx, kind)
+		if err != nil {
+			t.Fatal(err)
+		}
+
+		for _, x := range l.Items {
+			final[x.Metadata().ID()] = x.Metadata().Version().String()
+		}
+
+		have := map[string]string{}
+		problem := ""
+		deadline := time.After(5 * time.Second)
+
+		apply := func(e state.Event) {
+			switch e.Type {
+			case state.Created:
+				have[e.Resource.Metadata().ID()] = e.Resource.Metadata().Version().String()
+			case state.Updated:
+				id := e.Resource.Metadata().ID()
+				if e.Old != nil && have[id] != e.Old.Metadata().Version().String() && problem == "" {
+					problem = fmt.Sprintf("resource %q: the subscriber holds version %s (from the bootstrap snapshot and the events so far) but the next Updated event is %s -> %s: committed changes were silently skipped",
+						id, have[id], e.Old.Metadata().Version(), e.Resource.Metadata().Version())
+				}
+
+				have[id] = e.Resource.Metadata().Version().String()
+			case state.Errored:
+				problem = "unexpected Errored: " + e.Error.Error()
+			case state.Destroyed, state.Bootstrapped, state.Noop:
+			}
+		}
+
+		caughtUp := func() bool {
+			for id, v := range final {
+				if have[id] != v {
+					return false
+				}
+			}
+
+			return true
+		}
+
+	recv:
+		for !caughtUp() && problem == "" {
+			select {
+			case e := <-ch:
+				apply(e)
+			case es := <-aggCh:
+				for _, e := range es {
+					apply(e)
+				}
+			case <-deadline:
+				problem = fmt.Sprintf("the subscriber never reaches the store's contents: it holds %v, the store holds %v", have, final)
+
+				break recv
+			}
+		}
+
+		wstop()
+
+		rep.count(fmt.Sprint("conc", attempt), true)
+		rep.hit("concurrent_establishment")
+
+		if problem != "" {
+			rep.violateKey(attempt, "bootstrap-cut", "bootstrap-cut: a kind watch with bootstrap contents established while writers commit: "+problem,
+				map[string]any{"concurrent_establishment": map[string]any{"attempt": attempt, "aggregated": agg, "writers": writers, "burst": burst}, "problem": problem})
+
+			return
+		}
+	}
 }
 
 // runWatchScenarios runs the scenarios on the real code, compares every delivered batch with the model (WatchCheck) and
@@ -909,7 +1082,7 @@ func runWatchScenarios(t *testing.T, dir string, rep *Report, prop string, scs [
 
 func TestC02(t *testing.T) {
 	runWatchProperty(t, "C02",
-		"watch scenarios on inmem with (initcap,maxcap,gap) from a grid forcing growth, wrap-around and the overrun boundary: writes / start watcher (single|kind|aggregated, bootstrap, selector) / recv, "+
+		"bootstrapped kind watches established while 4 writers commit (free-running goroutines): snapshot + events must chain without a gap per resource; watch scenarios on inmem with (initcap,maxcap,gap) from a grid forcing growth, wrap-around and the overrun boundary: writes / start watcher (single|kind|aggregated, bootstrap, selector) / recv, "+
 			"synctest.Wait() after every action (stalled consumers = watchers not received from); every delivered batch compared with the model; plus every action string of length<=L over 7 symbols for tiny capacities; "+
 			"non-trivial = overrun, rejected start, Updated chain or replay check exercised; distinct by scenario",
 		func(r *rng) []wScenario {
@@ -933,6 +1106,9 @@ func TestC02(t *testing.T) {
 			}
 
 			return scs
+		}, func(rep *Report) {
+			concurrentEstablishment(t, rep)
+			rep.Assumptions = append(rep.Assumptions, "interleavings inside one Watch call (snapshot vs start position) are sampled by free-running writers, not enumerated")
 		})
 }
 
